@@ -5,6 +5,7 @@ import (
 	"fmt"
 
 	"verif/simrt"
+	atomic "verif/simrt/simatomic"
 	sync "verif/simrt/simsync"
 )
 
@@ -64,6 +65,51 @@ func userRecursiveRLock(c *toyCounter) int {
 	return userRWRead(c) // deadlocks only when a writer announces itself in between
 }
 
+// toys for the atomic and pool seams
+
+type toyPub struct {
+	data int
+	flag atomic.Int32
+	n    atomic.Int64
+	pool sync.Pool
+}
+
+type toyBuf struct{ v int }
+
+func userAtomicAdd(p *toyPub) { p.n.Add(1) }
+
+func userPublish(p *toyPub) {
+	p.data = 42
+	p.flag.Store(1)
+}
+
+func userReadIfPublished(p *toyPub) int {
+	if p.flag.Load() == 1 {
+		return p.data
+	}
+	return -1
+}
+
+func userRacyFlagIgnored(p *toyPub) int { return p.data } // reads without looking at the flag
+
+func userPoolRoundTrip(p *toyPub) {
+	b, _ := p.pool.Get().(*toyBuf)
+	if b == nil {
+		b = &toyBuf{}
+	}
+	b.v++
+	p.pool.Put(b)
+}
+
+func userRacyPoolUseAfterPut(p *toyPub) {
+	b, _ := p.pool.Get().(*toyBuf)
+	if b == nil {
+		b = &toyBuf{}
+	}
+	p.pool.Put(b)
+	b.v++ // still using it after handing it back
+}
+
 // CanaryWork is one canary program.
 type CanaryWork struct {
 	P    SimSpec `json:"sim"`
@@ -89,6 +135,19 @@ func (w *CanaryWork) Exec(x *Exec) {
 	case "recursive-rlock":
 		fns = []func(){func() { userRecursiveRLock(c) }, func() { userRWWrite(c) }}
 	}
+	p := &toyPub{}
+	switch w.Kind {
+	case "atomic-add":
+		fns = []func(){func() { userAtomicAdd(p) }, func() { userAtomicAdd(p) }, func() { userAtomicAdd(p) }}
+	case "atomic-publish":
+		fns = []func(){func() { userPublish(p) }, func() { userReadIfPublished(p) }}
+	case "atomic-flag-ignored":
+		fns = []func(){func() { userPublish(p) }, func() { userRacyFlagIgnored(p) }}
+	case "pool":
+		fns = []func(){func() { userPoolRoundTrip(p) }, func() { userPoolRoundTrip(p) }, func() { userPoolRoundTrip(p) }}
+	case "pool-use-after-put":
+		fns = []func(){func() { userRacyPoolUseAfterPut(p) }, func() { userRacyPoolUseAfterPut(p) }}
+	}
 	for i, f := range fns {
 		x.Spawn(fmt.Sprintf("t%d", i), f)
 	}
@@ -97,7 +156,8 @@ func (w *CanaryWork) Exec(x *Exec) {
 	}
 }
 
-var canaryKinds = []string{"racy", "safe", "rw", "lockorder", "recursive-rlock"}
+var canaryKinds = []string{"racy", "safe", "rw", "lockorder", "recursive-rlock",
+	"atomic-add", "atomic-publish", "atomic-flag-ignored", "pool", "pool-use-after-put"}
 
 func genCanary(r *simrt.Rand, tier string, idx uint64) Workload {
 	w := &CanaryWork{Kind: canaryKinds[int(idx%uint64(len(canaryKinds)))]}
